@@ -4,6 +4,7 @@ go 1.16
 
 require (
 	github.com/anishathalye/porcupine v1.3.0
+	github.com/gogo/protobuf v1.3.1
 	github.com/pingcap/check v0.0.0-20200212061837-5e12011dc712
 	github.com/pingcap/failpoint v0.0.0-20200702092429-9f69995143ce
 	github.com/pingcap/kvproto v0.0.0-20210604082642-dda0a102bc6a
